@@ -3,6 +3,7 @@
 package shmipc
 
 import (
+	"errors"
 	"net"
 	"os"
 	"time"
@@ -46,6 +47,7 @@ var c12 struct {
 	procs    [3]*globalBufferManager // per process: the harness itself, the client, the server
 	osCalls  int
 	osFailAt int
+	fileType bool
 }
 
 // the engine calls this whenever another party gets to run (root: 0 client, 1 server, -1 harness):
@@ -98,7 +100,10 @@ func vfstub_c12_Fd(f *os.File) uintptr {
 	if f == c12.file[0] {
 		return 10
 	}
-	return 20
+	if f == c12.file[1] {
+		return 20
+	}
+	return uintptr(100 + c12Handle(f))
 }
 
 func c12Who(fd int) int {
@@ -173,7 +178,100 @@ func vfstub_c12_ParseUnixRights(m *syscall.SocketControlMessage) ([]int, error) 
 	return []int{c12.got[0], c12.got[1]}, nil
 }
 
+// ---- the /dev/shm file back-end over the same OS model (files of c14OS, named) ----
+
+type c12File struct {
+	path   string
+	exists bool
+	idx    int // index into c14OS.files
+}
+
+var c12fs struct {
+	files   [4]c12File
+	n       int
+	handles [16]*os.File
+	hIdx    [16]int
+	nh      int
+}
+
+var errC12NoEnt = errors.New("no such file or directory")
+var errC12Exist = errors.New("file exists")
+
+func c12Lookup(path string) int {
+	for i := 0; i < 4; i++ {
+		if i < c12fs.n && c12fs.files[i].exists && c12fs.files[i].path == path {
+			return i
+		}
+	}
+	return -1
+}
+
+type c12FI struct{ size int64 }
+
+func (c12FI) Name() string       { return "f" }
+func (f c12FI) Size() int64      { return f.size }
+func (c12FI) Mode() os.FileMode  { return 0 }
+func (c12FI) ModTime() time.Time { return time.Time{} }
+func (c12FI) IsDir() bool        { return false }
+func (c12FI) Sys() interface{}   { return nil }
+
+func vfstub_c12_pathExists(path string) bool                  { return c12Lookup(path) >= 0 }
+func vfstub_c12_canCreate(size uint64, path string) bool      { return true }
+func vfstub_c12_MkdirAll(path string, perm os.FileMode) error { return nil }
+func vfstub_c12_OpenFile(name string, flag int, perm os.FileMode) (*os.File, error) {
+	i := c12Lookup(name)
+	if i < 0 {
+		if flag&os.O_CREATE == 0 {
+			return nil, errC12NoEnt
+		}
+		o := &c14OS
+		c12fs.files[c12fs.n] = c12File{path: name, exists: true, idx: o.nfiles}
+		o.nfiles++
+		i = c12fs.n
+		c12fs.n++
+	} else if flag&os.O_EXCL != 0 {
+		return nil, errC12Exist
+	}
+	f := &os.File{}
+	c12fs.handles[c12fs.nh] = f
+	c12fs.hIdx[c12fs.nh] = c12fs.files[i].idx
+	c12fs.nh++
+	c14OS.fdOpen[c12fs.files[i].idx]++
+	return f, nil
+}
+func c12Handle(f *os.File) int {
+	for k := 0; k < 16; k++ {
+		if k < c12fs.nh && c12fs.handles[k] == f {
+			return c12fs.hIdx[k]
+		}
+	}
+	return -1
+}
+func vfstub_c12_Truncate(f *os.File, size int64) error {
+	return vfstub14_Ftruncate(100+c12Handle(f), size)
+}
+func vfstub_c12_Stat(f *os.File) (os.FileInfo, error) {
+	if c12OSFault() {
+		return nil, syscall.EIO
+	}
+	return c12FI{int64(c14OS.files[c12Handle(f)].size)}, nil
+}
+func vfstub_c12_FileClose(f *os.File) error { return vfstub14_Close(100 + c12Handle(f)) }
+func vfstub_c12_Remove(name string) error {
+	i := c12Lookup(name)
+	if i < 0 {
+		return errC12NoEnt
+	}
+	c12fs.files[i].exists = false
+	return nil
+}
+
 func c12Config() *Config {
+	if c12.fileType {
+		return &Config{MemMapType: MemMapTypeDevShmFile, ShareMemoryBufferCap: 248, QueueCap: 2,
+			ShareMemoryPathPrefix: "p", QueuePath: "q", InitializeTimeout: time.Second,
+			BufferSliceSizes: []*SizePercentPair{{4, 50}, {8, 50}}}
+	}
 	return &Config{MemMapType: MemMapTypeMemFd, ShareMemoryBufferCap: 248, QueueCap: 2,
 		ShareMemoryPathPrefix: "p", QueuePath: "q", InitializeTimeout: time.Second,
 		BufferSliceSizes: []*SizePercentPair{{4, 50}, {8, 50}}}
@@ -190,7 +288,13 @@ func H_C12_handshake() {
 	}
 	c12.never = make(chan struct{})
 	c12.inflight = 0
+	c12.fileType = vfShape("mtype", 0, 1) == 1
+	c12fs.n, c12fs.nh = 0, 0
 	c12.twoProcs = vfShape("procs", 1, 2) == 2
+	if c12.fileType {
+		// the stubs of os.File methods have no native counterpart
+		vfNote("replay:model-only (file back-end over the OS model)")
+	}
 	if c12.twoProcs {
 		// one native process cannot hold two copies of the package-level buffer-manager table
 		vfNote("replay:model-only (client and server as two processes)")
@@ -227,6 +331,15 @@ func H_C12_handshake() {
 	if !done[0] || !done[1] {
 		return
 	}
+	if c12.fileType && errs[0] == nil && errs[1] != nil {
+		// protocol 2 has no acknowledgement: the client's call returns after sending the paths.
+		// F-V2NOACK (known finding): when the server then fails, the client holds a session whose
+		// peer never existed; the client's resources are (legitimately, from its view) still there
+		vfAssert(false, "F-V2NOACK/C12.both-ends-agree-on-success-or-failure")
+		vfAssert(sess[0] != nil && sess[1] == nil, "C12.results-match-errors")
+		vfCover("opt:C12.v2-client-alone")
+		return
+	}
 	if c12.stallWho < 0 {
 		vfAssert((errs[0] == nil) == (errs[1] == nil), "C12.both-ends-agree-on-success-or-failure")
 	} else {
@@ -243,7 +356,11 @@ func H_C12_handshake() {
 		c, s := sess[0], sess[1]
 		vfAssert(c != nil && s != nil, "C12.success-yields-sessions")
 		vfAssert(c.communicationVersion == s.communicationVersion, "C12.both-ends-use-the-same-version")
-		vfAssert(c.communicationVersion == maxSupportProtoVersion, "C12.memfd-client-and-current-server-use-the-highest-common-version")
+		if c12.fileType {
+			vfAssert(c.communicationVersion == 2, "C12.file-client-and-current-server-use-protocol-2")
+		} else {
+			vfAssert(c.communicationVersion == maxSupportProtoVersion, "C12.memfd-client-and-current-server-use-the-highest-common-version")
+		}
 		vfAssert(s.handshakeDone, "C12.server-handshake-done")
 		vfAssert(c.queueManager != nil && s.queueManager != nil && c.bufferManager != nil && s.bufferManager != nil, "C12.both-ends-have-their-managers")
 		vfAssert(vfSameObject(c.queueManager.mem, s.queueManager.mem), "C12.both-ends-map-the-same-queue-memory")
@@ -281,5 +398,10 @@ func H_C12_handshake() {
 	vfAssert(c14OS.mapped[1] == 0, "C12.no-queue-mapping-left-after-failure")
 	vfAssert(c14OS.fdOpen[0] == 0, "C12.no-buffer-descriptor-left-after-failure")
 	vfAssert(c14OS.fdOpen[1] == 0, "C12.no-queue-descriptor-left-after-failure")
+	for i := 0; i < 4; i++ {
+		if i < c12fs.n {
+			vfAssert(!c12fs.files[i].exists, "C12.no-file-left-after-failure")
+		}
+	}
 	vfCover("opt:C12.failed")
 }
